@@ -14,7 +14,7 @@ from vlib import clist, cpair, log
 
 PID = "C17"
 PROPS = "C17_Props.v"
-TARGETS = ["C17_Props.vo", "C17_Check.vo", "C17_CheckLex.vo", "C17_CheckBuild.vo"]
+TARGETS = ["C17_Props.vo", "C17_Check.vo", "C17_CheckLex.vo", "C17_CheckBuild.vo", "C17_CheckMerge.vo"]
 HARNESS = ["control/common_test.go", "control/c17_test.go", "control/c17lex_test.go", "control/c17build_test.go"]
 TEST = "TestVerifC17"
 
@@ -153,6 +153,8 @@ def translate():
 
 # ---- schema of config.New from the struct tags ---------------------------------------------------
 SCALAR_TYPES = {"bool": 1, "uint16": 2, "uint32": 3, "int": 4, "time.Duration": 5, "uint8": 6}
+ORACLE_TYPES = dict(SCALAR_TYPES, **{"netip.AddrPort": 7, "httpmethod": 8})
+STRING_VALUES = ["info", "a b", "x", "domain", "ip", "tls", "50-100", "first", "second one", "last", "debug", "warn", "v", ""]
 STRUCT_NAMES = ["Global", "Group", "Routing", "Dns", "DnsRouting", "DnsRequestRouting", "DnsResponseRouting", "Config"]
 
 
@@ -457,6 +459,7 @@ def show_decorated(rng, c):
 def bstr(s):
     """Coq term of type str for python str/bytes: one string literal, odd bytes escaped (Check.D)"""
     b = s.encode("utf-8") if isinstance(s, str) else s
+    b = b.replace(b"@ROOT@", b"/R")
     if not b:
         return "[]"
     out = []
@@ -610,7 +613,7 @@ ROOT = "@ROOT@"
 
 
 class VTree:
-    """virtual directory tree: path (normalised, absolute under @ROOT@) -> ("f", mode, text) | ("d",)"""
+    """virtual directory tree: lexical path (normalised, under @ROOT@) -> ("f", mode, text) | ("d",) | ("l", target)"""
 
     def __init__(self):
         self.nodes = {ROOT: ("d",)}
@@ -626,77 +629,56 @@ class VTree:
         self.add_dir(posixpath.dirname(p))
         self.nodes[p] = ("f", mode, text)
 
-    def exists(self, p):
-        return posixpath.normpath(p) in self.nodes
+    def add_link(self, p, target):
+        p = posixpath.normpath(p)
+        self.add_dir(posixpath.dirname(p))
+        self.nodes[p] = ("l", posixpath.normpath(target))
 
-    def isdir(self, p):
-        n = self.nodes.get(posixpath.normpath(p))
-        return n is not None and n[0] == "d"
+    def resolve(self, p, depth=0):
+        """the node the operating system reaches for a path (symbolic links followed), or None"""
+        if depth > 8:
+            return None
+        p = posixpath.normpath(p)
+        if not p.startswith(ROOT):
+            return None
+        cur = ROOT
+        rest = [c for c in p[len(ROOT):].split("/") if c]
+        while rest:
+            n = self.nodes.get(cur)
+            if n is None:
+                return None
+            if n[0] == "l":
+                return self.resolve(posixpath.join(n[1], *rest), depth + 1)
+            if n[0] != "d":
+                return None
+            cur = cur + "/" + rest.pop(0)
+        n = self.nodes.get(cur)
+        if n is not None and n[0] == "l":
+            return self.resolve(n[1], depth + 1)
+        return (cur, n) if n is not None else None
 
-    def listdir(self, d):
-        d = posixpath.normpath(d)
-        return sorted(posixpath.basename(p) for p in self.nodes if p != d and posixpath.dirname(p) == d)
+    def children(self, real_dir):
+        return sorted(posixpath.basename(p) for p in self.nodes if p != real_dir and posixpath.dirname(p) == real_dir)
 
-
-def has_meta(s):
-    return any(ch in s for ch in "*?[\\")
+    def lexical_paths(self, limit=400):
+        """every lexical path that reaches something: breadth first through directories, links followed"""
+        out = {}
+        todo = [(ROOT, 0)]
+        while todo and len(out) < limit:
+            p, d = todo.pop(0)
+            r = self.resolve(p)
+            if r is None:
+                continue
+            out[p] = r
+            if r[1][0] == "d" and d < 7:
+                for c in self.children(r[0]):
+                    todo.append((p + "/" + c, d + 1))
+        return out
 
 
 def go_join(*parts):
     parts = [p for p in parts if p != ""]
     return posixpath.normpath("/".join(parts)) if parts else ""
-
-
-def go_glob(vt, pattern):
-    """path/filepath.Glob over the virtual tree (patterns use only * and ?)"""
-    if not has_meta(pattern):
-        return [pattern] if vt.exists(pattern) else []
-    d, f = posixpath.split(pattern)
-    d0 = pattern[:len(pattern) - len(f)]
-    if d0 == "":
-        dd = "."
-    elif d0 == "/":
-        dd = "/"
-    else:
-        dd = d0[:-1]
-    if not has_meta(dd):
-        return glob_dir(vt, dd, f)
-    res = []
-    for m in go_glob(vt, dd):
-        res += glob_dir(vt, m, f)
-    return res
-
-
-def glob_dir(vt, d, pat):
-    if not vt.isdir(d):
-        return []
-    return [go_join(d, n) for n in vt.listdir(d) if fnmatch.fnmatchcase(n, pat)]
-
-
-def expand_pattern(vt, entry_dir, written):
-    pat = written if written.startswith("/") or written.startswith(ROOT) else go_join(entry_dir, written)
-    out = []
-    for f in go_glob(vt, pat):
-        if not f.endswith(".dae"):
-            continue
-        if vt.isdir(f):
-            continue
-        out.append(f)
-    return out
-
-
-def usable(vt, entry_dir, path):
-    """the property's reading: a .dae file, inside the entry configuration directory, regular, not writable by
-    group and not accessible by others (the documented permission rule)"""
-    if not path.endswith(".dae"):
-        return False
-    n = vt.nodes.get(posixpath.normpath(path))
-    if n is None or n[0] != "f":
-        return False
-    rel = posixpath.relpath(posixpath.dirname(posixpath.normpath(path)), entry_dir)
-    if rel.startswith(".."):
-        return False
-    return (n[1] & 0o037) == 0
 
 
 SEC_NAMES = ["global", "routing", "dns", "routing", "global", "s1"]
@@ -757,7 +739,7 @@ def gen_merge_case(rng):
         cand_written += [rel, "./" + rel, p, "sub/../" + rel]
     cand_written += ["*.dae", "sub/*.dae", "conf.d/*.dae", "conf.d/*", "*", "sub/*", "*/*.dae", "?.dae", "missing.dae", "../out.dae",
                      "../*.dae", "dir.dae", "sub", ROOT + "/etc/*.dae", ROOT + "/etc/./b.dae", "RAW:f(x) -> y", "RAW:k: b.dae",
-                     "RAW:s { }", "conf.d/??.dae"]
+                     "RAW:s { }", "conf.d/??.dae", "lnk.dae", "ldir/*.dae", "ldir/o.dae", "sub/l.dae"]
     mode_of = {}
     shape = rng.random()
     for p in all_files:
@@ -778,6 +760,12 @@ def gen_merge_case(rng):
         mode = rng.choice([0o600] * 36 + [0o640] * 4 + [0o400] * 2 + [0o644, 0o660, 0o604, 0o620])
         mode_of[p] = mode
         vt.add_file(p, mode, text)
+    if rng.random() < 0.25:
+        tgt = rng.choice([p for p in all_files if p != entry] or [entry])
+        vt.add_link(entry_dir + "/" + rng.choice(["lnk.dae", "conf.d/30.dae", "sub/l.dae"]), tgt)
+    if rng.random() < 0.15:
+        vt.add_file(ROOT + "/outside/o.dae", 0o600, "global { o: 1 }\n")
+        vt.add_link(entry_dir + "/ldir", ROOT + "/outside")
     return {"vt": vt, "entry": entry, "entry_dir": entry_dir}
 
 
@@ -789,7 +777,13 @@ def fixed_merge_cases():
     def mk(files, entry="entry.dae"):
         vt = VTree()
         for name, mode, text in files:
-            vt.add_file(name if name.startswith(ROOT) else E + "/" + name, mode, text)
+            full = name if name.startswith(ROOT) else E + "/" + name
+            if mode == "link":
+                vt.add_link(full, text)
+            elif mode == "dir":
+                vt.add_dir(full)
+            else:
+                vt.add_file(full, mode, text)
         out.append({"vt": vt, "entry": E + "/" + entry, "entry_dir": E})
     mk([("entry.dae", 0o600, "routing { e1: v f(e) -> o }\ninclude { a.dae b.dae }\nrouting { e2: v }\n"),
         ("a.dae", 0o600, "routing { a1: v }\ninclude { sub/c.dae }\nglobal { ga: 1 }\n"),
@@ -812,6 +806,20 @@ def fixed_merge_cases():
     mk([("entry.dae", 0o600, "include { f(x) -> y }\n")])                                      # include item is not a value
     mk([("entry.conf", 0o600, "global { }\n")], entry="entry.conf")                           # the entry itself is not .dae
     mk([("entry.dae", 0o600, "global { a: 1 }\nglobal { b: 2 }\nrouting { }\nglobal { c: 3 }\n")])   # equally named sections of one file
+    # symbolic links: the merger's directory rule is lexical, the operating system follows the link
+    mk([("entry.dae", 0o600, "include { link.dae }\nglobal { e: 1 }\n"), ("link.dae", "link", ROOT + "/out.dae"),
+        (ROOT + "/out.dae", 0o600, "global { out: 1 }\n")])                                   # link inside -> file outside: read (lexically inside)
+    mk([("entry.dae", 0o600, "include { '../outlink.dae' }\nglobal { e: 1 }\n"), (ROOT + "/outlink.dae", "link", E + "/a.dae"),
+        ("a.dae", 0o600, "global { a: 1 }\n")])                                               # link outside -> file inside: refused
+    mk([("entry.dae", 0o600, "include { 'ldir/*.dae' 'ldir/../b.dae' }\nglobal { e: 1 }\n"), ("ldir", "link", ROOT + "/outside"),
+        (ROOT + "/outside/z.dae", 0o600, "global { z: 1 }\n"), (ROOT + "/outside/y.dae", 0o640, "global { y: 1 }\n"),
+        ("b.dae", 0o600, "global { b: 1 }\n")])                                               # linked directory, glob through it
+    mk([("entry.dae", 0o600, "include { alias.dae a.dae }\n"), ("alias.dae", "link", E + "/a.dae"), ("a.dae", 0o600, "global { a: 1 }\n")])  # same file under two names: not circular
+    mk([("entry.dae", 0o600, "include { open.dae }\n"), ("open.dae", "link", E + "/sub/t.dae"), ("sub/t.dae", 0o644, "global { t: 1 }\n")])  # mode of the target counts
+    mk([("entry.dae", 0o600, "include { '*.dae' }\nglobal { e: 1 }\n"), ("z.dae", 0o600, "global { z: 1 }\n"), ("B.dae", 0o600, "global { B: 1 }\n"),
+        ("a-b.dae", 0o600, "global { ab: 1 }\n"), ("a.dae", 0o600, "global { a: 1 }\n"), ("d.dae", "dir", "")])   # lexical (byte) order; entry itself matched: circular
+    mk([("main.dae", 0o600, "include { '*/*.dae' 'x?.dae' }\nglobal { e: 1 }\n"), ("a/2.dae", 0o600, "global { a2: 1 }\n"), ("a-b/1.dae", 0o600, "global { ab1: 1 }\n"),
+        ("a/1.dae", 0o600, "global { a1: 1 }\n"), ("x1.dae", 0o600, "global { x1: 1 }\n"), ("x10.dae", 0o600, "global { x10: 1 }\n")], entry="main.dae")  # nested wildcards: component-wise order
     return out
 
 
@@ -824,9 +832,15 @@ def merge_request(mc):
             continue
         if n[0] == "d":
             files.append({"path": rel, "dir": True})
+        elif n[0] == "l":
+            files.append({"path": rel, "link": n[1]})
         else:
             files.append({"path": rel, "mode": n[1], "text": b64(n[2])})
-    return {"op": "merge", "files": files, "entry": mc["entry"][len(ROOT) + 1:]}
+    words = set()
+    for n in vt.nodes.values():
+        if n[0] == "f":
+            words |= set(w for w in model_parse_includes(n[2]) if len(w) < 200 and "[" not in w and "\\" not in w and "\x00" not in w)
+    return {"op": "merge", "files": files, "entry": mc["entry"][len(ROOT) + 1:], "globs": sorted(words)}
 
 
 def model_parse_includes(text):
@@ -841,33 +855,26 @@ def model_parse_includes(text):
     return words
 
 
-def merge_case_term(mc, res):
-    vt, entry_dir = mc["vt"], mc["entry_dir"]
-    # expansion table for every word that may be an include pattern; file table for every spelling met
-    table = {}
-    spellings = {mc["entry"]}
-    for p, n in vt.nodes.items():
-        if n[0] != "f":
-            continue
-        for wd in model_parse_includes(n[2]):
-            if wd in table or len(wd) > 200:
-                continue
-            ex = expand_pattern(vt, entry_dir, wd)
-            table[wd] = ex
-            spellings.update(ex)
-    files = []
-    for s in sorted(spellings):
-        n = vt.nodes.get(posixpath.normpath(s))
-        text = n[2] if n is not None and n[0] == "f" else ""
-        files.append("(Build_merge_file %s %s %s)" % (bstr(s), vlib.cbool(usable(vt, entry_dir, s)), bstr(text)))
-    tab = clist([cpair(bstr(k), clist([bstr(x) for x in v])) for k, v in sorted(table.items()) if v])
+def merge_case_term(mc, res, rng):
+    vt = mc["vt"]
+    lex = vt.lexical_paths()
+    os_tab, listing = [], []
+    for p, (real, n) in sorted(lex.items()):
+        if n[0] == "d":
+            os_tab.append(cpair(bstr(p), "ODir"))
+            names = vt.children(real)
+            rng.shuffle(names)                      # the directory order the OS returns is arbitrary
+            listing.append(cpair(bstr(p), clist([bstr(x) for x in names])))
+        elif n[0] == "f":
+            os_tab.append(cpair(bstr(p), "(OFile %d %s)" % (n[1], bstr(n[2]))))
+    globs = clist([cpair(bstr(k), clist([bstr(x) for x in v])) for k, v in sorted((res.get("globs") or {}).items())])
     if res.get("panic"):
         impl = "MPanic"
     elif res.get("ok"):
         impl = "(MOk %s %s)" % (g_sections(res.get("sections")), clist([bstr(e) for e in (res.get("entries") or [])]))
     else:
         impl = "MErr"
-    return "(Build_merge_case %s %s %s %s)" % (clist(files), tab, bstr(mc["entry"]), impl)
+    return "(Build_mcase %s %s %s %s %s %s)" % (clist(os_tab), clist(listing), bstr(mc["entry_dir"]), bstr(mc["entry"]), impl, globs)
 
 
 # ---- capacity / compile cases --------------------------------------------------------------------
@@ -941,6 +948,12 @@ BUILD_TEXTS = [
     ("duration-bad", "global { check_interval: soon } routing {}", False),
     ("node-list", "global {} routing {} node { n1: 'socks5://a:1' 'socks5://b:2' }", True),
     ("node-rule", "global {} routing {} node { f(x) -> y }", False),
+    ("bootstrap-trimmed", "global { bootstrap_resolver: ' 8.8.8.8:53 ' } routing {}", True),
+    ("bootstrap-empty", "global { bootstrap_resolver: '  ' } routing {}", True),
+    ("bootstrap-no-port", "global { bootstrap_resolver: '1.1.1.1' } routing {}", False),
+    ("bootstrap-name", "global { bootstrap_resolver: 'dns.google:53' } routing {}", False),
+    ("http-method-unknown", "global { tcp_check_http_method: BOGUS } routing {}", True),
+    ("http-method-known", "global { tcp_check_http_method: GET } routing {}", True),
 ]
 
 
@@ -1007,9 +1020,11 @@ VALUE_PALETTE = {
     "int": ["-5", "10", "x", "0", "9999999999999999999"],
     "time.Duration": ["30s", "1h", "soon", "10", "0", "1h30m", "-5s", "5 s"],
     "uint8": ["0", "255", "256"],
+    "netip.AddrPort": ["1.1.1.1:53", "[::1]:53", "1.1.1.1", "dns.google:53", "8.8.8.8:53", "x"] + STRING_VALUES,
+    "httpmethod": ["HEAD", "GET", "CONNECT", "head", "BOGUS", "POST", "PUT"] + STRING_VALUES,
 }
 PROJECTED_GLOBAL_STRINGS = ["log_level", "dial_mode", "tls_implementation", "utls_imitate", "fallback_resolver", "bandwidth_max_tx", "tls_fragment_length"]
-ERR_KINDS = [("is required but not provided", 1), ("unknown section", 2), ("unexpected key", 3), ("unsupported text without a key", 4),
+ERR_KINDS = [("parse global.bootstrap_resolver", 9), ("is required but not provided", 1), ("unknown section", 2), ("unexpected key", 3), ("unsupported text without a key", 4),
              ("but not found", 5), ("cannot be convert", 6), ("unsupported section type", 6), ("expected exactly 1 function", 6),
              ("cannot use routing rule in this context", 7), ("does not support type", 8), ("unmatched type", 8)]
 
@@ -1025,7 +1040,13 @@ def gen_struct_items(rng, sch, sname, depth=0):
     for f in st["fields"]:
         k = f["kind"]
         must = f["required"]
-        if f["key"] in ("bootstrap_resolver",):
+        if f["key"] == "bootstrap_resolver":
+            if rng.random() < 0.3:
+                items.append("bootstrap_resolver: '%s'" % rng.choice(["1.1.1.1:53", "[::1]:53", "1.1.1.1", "dns.google:53", " 8.8.8.8:53 ", "", "  ", "x"]))
+            continue
+        if f["key"] == "tcp_check_http_method":
+            if rng.random() < 0.4:
+                items.append("tcp_check_http_method: %s" % rng.choice(["HEAD", "GET", "CONNECT", "head", "BOGUS", "POST", "PUT", "''"]))
             continue
         if not must and rng.random() > 0.25:
             continue
@@ -1141,7 +1162,7 @@ def run_build_stream(sc, binary, rng, sch, n, out, stats):
     ores, err = run_requests(sc, binary, oreqs, "oracle", test=test)
     if err:
         return None, err
-    oracle = clist(["(%d, %s, %s)" % (SCALAR_TYPES[ty], bstr(v), vlib.cbool(r.get("ok", False))) for (ty, v), r in zip(okeys, ores)])
+    oracle = clist(["(%d, %s, %s)" % (ORACLE_TYPES[ty], bstr(v), vlib.cbool(r.get("ok", False))) for (ty, v), r in zip(okeys, ores)])
     cases = [gen_build_text(rng, sch) for _ in range(n)]
     cases = [(t, "fixed:" + name) for name, t, _ in BUILD_TEXTS] + cases
     res, err = run_requests(sc, binary, [{"op": "build2", "text": b64(t)} for t, _ in cases], "build2", test=test)
@@ -1165,11 +1186,13 @@ def run_build_stream(sc, binary, rng, sch, n, out, stats):
             code = next((c for pat, c in ERR_KINDS if pat in b.get("err", "")), 50)
         kinds[code] = kinds.get(code, 0) + 1
         gs = []
+        hm, bs = "", ""
         if code == 0:
             g = b["conf"]["global"]
             gs = [cpair(bstr(k), bstr(g[k])) for k in PROJECTED_GLOBAL_STRINGS if k in g]
+            hm, bs = g.get("tcp_check_http_method", ""), g.get("bootstrap_resolver", "")
         idx.append(i)
-        terms.append("(Build_build_case %s oracle_tab %d %s)" % (g_sections(p.get("sections")), code, clist(gs)))
+        terms.append("(Build_build_case %s oracle_tab %d %s %s %s)" % (g_sections(p.get("sections")), code, clist(gs), bstr(hm), bstr(bs)))
     text = (HEADER + "From Dae Require Import C17_CheckBuild.\nDefinition oracle_tab : list (N * str * bool) := %s.\n" % oracle +
             "Definition cases : list build_case := [\n%s\n].\n" % ";\n".join(terms) +
             "Definition R := Eval vm_compute in map check_build cases.\nPrint R.\n"
@@ -1230,7 +1253,7 @@ def run_isolated(sc, binary, reqs, tag):
     return run_isolated(sc, binary, reqs[:mid], tag + "a") + run_isolated(sc, binary, reqs[mid:], tag + "b")
 
 
-HEADER = ("From Coq Require Import List NArith Bool String Ascii.\nFrom Dae Require Import C17_Spec C17_Model C17_Check C17_CheckLex.\n"
+HEADER = ("From Coq Require Import List NArith Bool String Ascii.\nFrom Dae Require Import C17_Spec C17_Model C17_Paths C17_Check C17_CheckLex C17_CheckMerge.\n"
           "Import ListNotations.\nOpen Scope string_scope.\nOpen Scope N_scope.\nOpen Scope list_scope.\n")
 
 
@@ -1428,13 +1451,14 @@ def main(argv):
            "translated_from_source": {k: facts.get(k) for k in ("sets", "max_match_set_len", "lexer_shape_sha256", "parser_atn_sha256")},
            "trusted_base": vlib.TRUSTED_BASE_COMMON + [
                "the reading of ANTLR 4's lexer ATN simulator (longest match, first rule on ties, non-greedy loops) and of the 19 grammar rules as an LL(2) recursive descent; tied to the generated lexer/parser only by the correspondence run",
-               "python mirror of path/filepath.Glob/Join/Rel over a virtual directory tree and of the usability rule (.dae suffix, inside the entry directory, regular file, mode & 037 = 0) that supplies the abstract file system of the merge model",
+               "python virtual directory tree answering what the operating system answers for a path (symbolic links followed) - the os/listing tables of the merge cases; Glob, Join/Clean, EnsureFileInSubDir and readEntry's checks are Coq models (C17_Paths.v) compared with filepath.Glob's real answers and the merger's real behaviour",
+               "oracle contract of directory listings: no two entries of one directory have the same name (nodup_listing)",
                "valid UTF-8 input for the structural comparison (the lexer works on runes, the model on bytes; they coincide because every special character is ASCII); arbitrary byte strings are only checked for 'an answer, not a crash'"]}
     out.coverage = cov
     out.assumptions = ["clause 'parsing never crashes whatever the input' for MALFORMED input: exploration only (generated near-miss, edge and raw streams); the theorem side says the model is total",
                        "typed decoding (config.New): modelled for its contract over the schema translated from the struct tags, with common.FuzzyDecode as an oracle answered by the harness; Go reflection itself and the bootstrap_resolver / http-method patches are not modelled",
                        "kernel-side capacity (BuildKernspace) cannot run in the stub build; the capacity clause is decided on the userspace builders",
-                       "symbolic links are not resolved by the merger's directory check (path-wise containment); not generated"]
+                       "the directory rule is read lexically, as the Go code implements it: a symbolic link that lies inside the entry directory is read even when its target is outside (os.Open follows it, EnsureFileInSubDir resolves nothing); generated and modelled that way; dangling links and '..' through linked directories are not generated"]
     stats = {}
 
     with vlib.Scratch() as sc:
@@ -1542,8 +1566,8 @@ def main(argv):
         if err:
             tie_broken = tie_broken or err
         else:
-            terms = [merge_case_term(m, r) for m, r in zip(mcases, mres)]
-            per, msigs, err = eval_cases("C17_cases_merge", "merge_case", terms, "check_merge", "merge_signature")
+            terms = [merge_case_term(m, r, rng) for m, r in zip(mcases, mres)]
+            per, msigs, err = eval_cases("C17_cases_merge", "mcase", terms, "check_mcase", "mcase_signature")
             if err:
                 tie_broken = tie_broken or err
             else:
@@ -1552,6 +1576,9 @@ def main(argv):
                         merge_fail_spec.append(i)
                     elif e:
                         merge_fail_model.append(i)
+                stats["glob_answers_compared"] = sum(len(r.get("globs") or {}) for r in mres)
+                stats["glob_answers_with_matches"] = sum(1 for r in mres for v in (r.get("globs") or {}).values() if v)
+                stats["merge_trees_with_symlinks"] = sum(1 for m in mcases if any(n[0] == "l" for n in m["vt"].nodes.values()))
                 stats["merge_ok"] = sum(1 for r in mres if r.get("ok"))
                 stats["merge_err"] = sum(1 for r in mres if not r.get("ok") and not r.get("panic"))
                 errkinds = {}
